@@ -174,7 +174,9 @@ def tables(draw, spec, max_rows=8, ragged=True, bad=True):
                 pool = field["reject"]
             row.append(draw(st.sampled_from(pool)))
         if ragged and not fixed:
-            if shape == "short" and len(row) > 1:
+            if shape == "short" and not spreadsheet and draw(st.integers(0, 3)) == 0:
+                row = []  # an empty line
+            elif shape == "short" and len(row) > 1:
                 row = row[: draw(st.integers(1, len(row) - 1))]
             elif shape == "long":
                 row = row + [draw(st.sampled_from(["x", "extra", "1"]))]
